@@ -459,11 +459,7 @@ def _rewrite_stream_zones_from_tree(
     if not all_paths:
         return
 
-    canonical_paths = {"/".join(path) for path in all_paths}
     root_name = zone_tree.name
-    if zone_tree.children is None:
-        zone_tree.children = []
-    root_child_names = {child.name for child in zone_tree.children}
 
     for stream in streams:
         zone_label = getattr(stream, "zone", None)
@@ -473,49 +469,52 @@ def _rewrite_stream_zones_from_tree(
         if not components:
             continue
 
-        label_joined = "/".join(components)
         components_tuple = tuple(components)
 
-        if len(components_tuple) == 1 and components_tuple[0] == root_name:
-            base_name = stream.name or f"{root_name}_Process"
-            process_name = base_name
-            counter = 1
-            while (
-                process_name in root_child_names
-                or process_name == root_name
-            ):
-                counter += 1
-                process_name = f"{base_name}_{counter}"
-
-            new_node = ZoneTreeSchema(
-                name=process_name, type=ZoneType.P.value, children=None
-            )
-            zone_tree.children.append(new_node)
-            root_child_names.add(process_name)
-
-            new_path = (root_name, process_name)
-            path_to_node[new_path] = new_node
-            all_paths.append(list(new_path))
-            canonical_paths.add("/".join(new_path))
-
-            stream.zone = "/".join(new_path)
-            continue
-
-        if label_joined in canonical_paths:
-            stream.zone = label_joined
-            continue
-
+        # Resolve the label to a node of the tree: the full path, the path
+        # below the root, or the only path that ends with the label
         if components_tuple in path_to_node:
-            stream.zone = "/".join(components_tuple)
+            resolved = components_tuple
+        elif (root_name, *components_tuple) in path_to_node:
+            resolved = (root_name, *components_tuple)
+        else:
+            candidate_paths = [
+                path_tuple
+                for path_tuple in path_to_node.keys()
+                if len(path_tuple) >= len(components_tuple)
+                and path_tuple[-len(components_tuple):] == components_tuple
+            ]
+            if len(candidate_paths) != 1:
+                continue
+            resolved = candidate_paths[0]
+
+        node = path_to_node[resolved]
+        if len(resolved) > 1 and not node.children:
+            stream.zone = "/".join(resolved)
             continue
 
-        candidate_paths: List[Tuple[str, ...]] = []
-        for path_tuple in path_to_node.keys():
-            if len(path_tuple) >= len(components_tuple) and list(path_tuple)[-len(components_tuple):] == list(components_tuple):
-                candidate_paths.append(path_tuple)
+        # A stream placed on the root or on a zone that has sub-zones gets a
+        # zone of its own below it; otherwise it would be lost when the parent
+        # collects its streams from its sub-zones
+        if node.children is None:
+            node.children = []
+        sibling_names = {child.name for child in node.children}
+        base_name = stream.name or f"{node.name}_Process"
+        process_name = base_name
+        counter = 1
+        while process_name in sibling_names or process_name == node.name:
+            counter += 1
+            process_name = f"{base_name}_{counter}"
 
-        if len(candidate_paths) == 1:
-            stream.zone = "/".join(candidate_paths[0])
+        new_node = ZoneTreeSchema(
+            name=process_name,
+            type=ZoneType.P.value if len(resolved) == 1 else ZoneType.O.value,
+            children=None,
+        )
+        node.children.append(new_node)
+        new_path = (*resolved, process_name)
+        path_to_node[new_path] = new_node
+        stream.zone = "/".join(new_path)
 
 
 def _validate_zone_tree_structure(
